@@ -211,11 +211,70 @@ def run(ctx):
             ctx.tie_broken("correspondence", "resolve_framer model vs framing.resolveFramer", repr(fmetas[i]))
         ctx.extra["resolveFramer_mismatches"] = len(fbad)
 
+    # ---- (2c) resolvePath error classes: C13 model vs the real method in framers of every schedule kind
+    rc, out = ctx.impl_python(os.path.join(HERE, "rp_probe.py"), None, 180)
+    m = re.search(r"^@@(.*)$", out, re.M)
+    if not m:
+        ctx.tie_broken("harness", "rp_probe.py", out[-800:])
+    else:
+        ids = {"": 0, "framer": 1, "me": 2, "main": 3, "frame": 4, "actor": 5}
+
+        def I(x):
+            return ids.setdefault(x, len(ids) + 10)
+
+        def cp(ps):
+            return "[" + "; ".join(str(I(x)) for x in ps) + "]" if ps else "(@nil N)"
+
+        def cl(items, ty):
+            items = list(items)
+            return "[" + "; ".join(items) + "]" if items else "(@nil %s)" % ty
+        pcases, pmetas = [], []
+        for c, pth, r in json.loads(m.group(1)):
+            if r[0] == "ok":
+                if r[2] == "":
+                    continue
+                exp = "(Ok %s)" % cp(r[2].split("."))
+            elif r[0] == "ResolveError":
+                exp = "ErrResolve"
+            elif r[0] == "IndexError":
+                exp = "ErrIndex"      # known behaviour of resolvePath on a truncated path (C13 model)
+            else:
+                ctx.tie_broken("correspondence", "resolvePath raised an unmodelled exception (not ResolveError)",
+                               "framer=%r has_main=%r ipath=%r -> %r" % (c["names"]["framer"], c["has_main"], pth, r))
+                ctx.case({"ipath": pth, "has_main": c["has_main"], "outcome": r[:2]}, kind="resolvePath:other")
+                continue
+            ctx.case({"ipath": pth, "framer": c["names"]["framer"], "has_main": c["has_main"], "outcome": r[0]},
+                     nontrivial=not pth.startswith("."), kind="resolvePath:" + r[0])
+            n = c["names"]
+            cexpr = "(mkctx %s %s %s %s %s %s %s)" % (
+                "true" if c["has_main"] else "false", "true" if c["actor_ok"] else "false",
+                "None" if c["act_inode"] is None else "(Some %s)" % cp(c["act_inode"]), cp(c["frame_inode"]),
+                cl([cp(o) for o in c["overs"]], "(list N)"), cp(c["framer_inode"]),
+                cl(["(%s, %s)" % (cl([cp(o) for o in ch], "(list N)"), cp(mi)) for ch, mi in c["levels"]],
+                   "(list (list N) * list N)"))
+            nexpr = "(mknames %d %d %d %d %s)" % (I(n["framer"]), I(n["mainframer"]), I(n["frame"]), I(n["mainframe"]),
+                                                  cp(n["actor"]))
+            pcases.append(("(resolve_str %s %s %s)" % (nexpr, cexpr, cp(pth.split(".") if pth else [])), exp))
+            pmetas.append((c["names"]["framer"], c["has_main"], pth, r))
+        phdr = ("From Coq Require Import List NArith Bool.\nImport ListNotations.\nRequire Import V.C13.Model.\n"
+                "Open Scope N_scope.\n"
+                "Fixpoint l_eqb (a b : list N) := match a, b with [], [] => true | x::a', y::b' => N.eqb x y && l_eqb a' b' "
+                "| _, _ => false end.\n"
+                "Definition r_eqb (a b : res (list N)) := match a, b with Ok x, Ok y => l_eqb x y | ErrResolve, ErrResolve "
+                "=> true | ErrIndex, ErrIndex => true | _, _ => false end.\n")
+        pbad = ctx.coq_cases(phdr, "r_eqb", pcases, name="rpath")
+        for i in pbad[:5]:
+            ctx.tie_broken("correspondence", "resolvePath model (error class / result) vs Act.resolvePath", repr(pmetas[i]))
+        ctx.extra["resolvePath_mismatches"] = len(pbad)
+
     # ---- (3) dynamic support ---------------------------------------------------------------------
     corpus = json.load(open(os.path.join(HERE, "corpus.json")))
     plans = [open(p).read() for p in G.plans(ctx.repo)]
     scripts = [c["script"] for c in corpus] + list(plans)
     kinds = ["corpus"] * len(corpus) + ["plan"] * len(plans)
+    refs = G.reference_scripts()      # deterministic: every reference form x data position x framer kind
+    scripts += refs
+    kinds += ["reference"] * len(refs)
     roles = G.role_scripts()          # deterministic: every name kind in every framer/tasker/frame position
     scripts += roles
     kinds += ["role"] * len(roles)
@@ -232,6 +291,9 @@ def run(ctx):
         early = r[0] == "ParseError" and ("index = 1." in r[1] or "No current" in r[1])
         if kd == "role":
             s_show = [ln.strip() for ln in s.split("\n")][5]
+        elif kd == "reference":
+            s_show = [ln for ln in s.split("\n") if ln.startswith("    ") and " aux " not in ln][:1] + \
+                     [ln for ln in s.split("\n")[:40] if ln.startswith("framer")]
         else:
             s_show = s[:400]
         ctx.case({"kind": kd, "script": s_show, "outcome": r[:2]}, nontrivial=not early, kind="%s:%s" % (kd, cls))
